@@ -458,7 +458,9 @@ theorem inv_enter (env : Env) (s : Runtime) (str : Str) (hi : Inv s) : Inv (ente
         split
         · exact hi
         · exact inv_enterDirect s _ (Option.isNone_iff_eq_none.1 hnone) hi
-      · exact inv_enterIndirect s _ hi
+      · split
+        · exact inv_of_keep hi (by keep)
+        · exact inv_enterIndirect s _ hi
 
 theorem inv_setListing (env : Env) (s : Runtime) (l : Listing) (run : Bool) (hi : Inv s) :
     Inv (setListing env s l run) := by
